@@ -47,6 +47,12 @@ func (s resendState) FixMsgIn(session *session, msg *Message) (nextState session
 		return
 	}
 
+	if s.currentResendRangeEnd != 0 && s.resendRangeEnd < session.store.NextTargetMsgSeqNum() {
+		// The whole gap is already closed (e.g. by a gap fill reaching past it): there is no
+		// further chunk to request, fall through to delivering the kept messages.
+		s.currentResendRangeEnd = 0
+	}
+
 	if s.currentResendRangeEnd != 0 && s.currentResendRangeEnd < session.store.NextTargetMsgSeqNum() {
 		nextResendState, err := session.sendResendRequest(session.store.NextTargetMsgSeqNum(), s.resendRangeEnd)
 		if err != nil {
